@@ -41,12 +41,15 @@ class SignResult:
         self.mask_only = []  # (var, tag)
         self.unused = []  # (var, tag, node)
         self.bad = []  # (node, message)
+        self.origin = {}  # var -> text of the directional call it came from
 
 
 def analyse(fi, param_tags=None):
     """param_tags: {param name: tag} for Jacobian parameters tagged from the call sites."""
     res = SignResult()
     tags = dict(param_tags or {})
+    for k_ in tags:
+        res.origin[k_] = f"parameter {k_}"
     stmts = sorted([s for s in walk_no_nested(fi.node) if isinstance(s, ast.stmt)], key=lambda s: (s.lineno, s.col_offset))
     # 1. sources
     for s in stmts:
@@ -60,6 +63,7 @@ def analyse(fi, param_tags=None):
                         res.unused.append(("_", d, s))
                     else:
                         tags[j.id] = d
+                        res.origin[j.id] = src(s.value.func)
                         res.sources.append((s, j.id, d))
     if not tags:
         return res
@@ -73,6 +77,7 @@ def analyse(fi, param_tags=None):
                 inits = [a for a in stmts if isinstance(a, ast.Assign) and len(a.targets) == 1 and isinstance(a.targets[0], ast.Name) and a.targets[0].id == s.target.id]
                 if len(inits) == 1 and isinstance(inits[0].value, ast.Constant) and inits[0].value.value == 0:
                     tags[s.target.id] = tags[s.value.id]
+                    res.origin[s.target.id] = res.origin.get(s.value.id, "?")
                     changed = True
             if isinstance(s, ast.Assign) and len(s.targets) == 1 and isinstance(s.targets[0], ast.Name):
                 v = s.value
@@ -90,6 +95,7 @@ def analyse(fi, param_tags=None):
                     name = call_name(v) if isinstance(v, ast.Call) else None
                     if name is None or name.split(".")[-1] in ("sum", "copy", "squeeze", "flatten", "astype"):
                         tags[s.targets[0].id] = tags[base.id]
+                        res.origin[s.targets[0].id] = res.origin.get(base.id, "?")
                         changed = True
     # 3. uses
     used = set()
